@@ -85,6 +85,7 @@ namespace Cli
 /-- What each phase did, as far as `main` is concerned. -/
 structure Phases where
   outputOpens : Bool := true                   -- `-o FILE` could be created
+  outputWrites : Bool := true                  -- the image could be written to it
   searchPathsOk : Bool := true                 -- every `-I` directory exists
   assemble : Bool                              -- parse phase succeeded
   link : Option (List Nat)                     -- `some image` = link succeeded
@@ -110,6 +111,7 @@ def main (toFile : Bool) (p : Phases) : Outcome :=
   match p.link with
   | none => ⟨1, [], empty, true, 0⟩
   | some image =>
+    if toFile && !p.outputWrites then ⟨1, [], some [], true, 0⟩ else
     let out := if toFile then [] else image
     let file := if toFile then some image else none
     let done := (p.exports.takeWhile id).length
